@@ -100,6 +100,39 @@ PAIRS['SCH'] = ("""<schema extends="b1.xml sub/b2.xml" datatype="vf.dtsupport.wr
     'b3.xml': """<schema><sectiontype name="t3"><key name="kc"/></sectiontype><key name="k3" datatype="integer" default="3"/></schema>""",
 })
 
+# schema-level extends two levels deep: key type and datatype declared by the root base only
+PAIRS['SCH2'] = ("""<schema extends="mid.xml">
+ <key name="Kt" default="t"/>
+ <key name="+" attribute="any"><default key="Da">1</default></key>
+ <section type="t1" name="*" attribute="s1"/>
+</schema>""", """<schema keytype="identifier" datatype="vf.dtsupport.wrap">
+ <sectiontype name="t1"><key name="Ka"/><key name="kb" default="b"/></sectiontype>
+ <key name="Kr" default="r"/>
+ <key name="Km" default="m"/>
+ <key name="Kt" default="t"/>
+ <key name="+" attribute="any"><default key="Da">1</default></key>
+ <section type="t1" name="*" attribute="s1"/>
+</schema>""", {
+    'mid.xml': """<schema extends="deep/root.xml"><key name="Km" default="m"/></schema>""",
+    'deep/root.xml': """<schema keytype="identifier" datatype="vf.dtsupport.wrap"><sectiontype name="t1"><key name="Ka"/><key name="kb" default="b"/></sectiontype><key name="Kr" default="r"/></schema>""",
+})
+
+# three bases side by side (merged last-named first, as the existing SCH pair documents)
+PAIRS['SCH3'] = ("""<schema extends="x1.xml x2.xml x3.xml">
+ <multikey name="Kt"/>
+ <multisection type="t2" name="+" attribute="s2"/>
+</schema>""", """<schema keytype="identifier">
+ <key name="K3" default="3"/>
+ <sectiontype name="t2"><key name="Kb" datatype="integer"/></sectiontype>
+ <key name="K1" default="1"/>
+ <multikey name="Kt"/>
+ <multisection type="t2" name="+" attribute="s2"/>
+</schema>""", {
+    'x1.xml': """<schema keytype="identifier"><key name="K1" default="1"/></schema>""",
+    'x2.xml': """<schema keytype="identifier"><sectiontype name="t2"><key name="Kb" datatype="integer"/></sectiontype></schema>""",
+    'x3.xml': """<schema keytype="identifier"><key name="K3" default="3"/></schema>""",
+})
+
 PAIRS['CMP'] = ("""<schema>
  <import package="vfpk_a"/>
  <import package="vfpk_b"/>
@@ -189,16 +222,22 @@ class C11(P.TextMixin, Harness):
 
     @property
     def bounds(self):
-        return {'quick': {'pairs': 4, 'texts': len(TEXTS_Q)}, 'thorough': {'pairs': 4, 'texts': len(TEXTS_T)}}
+        return {'quick': {'pairs': len(PAIRS), 'texts': len(TEXTS_Q) + len(gen.shapes(3))}, 'thorough': {'pairs': len(PAIRS), 'texts': len(TEXTS_T) + len(gen.shapes(4))}}
 
     def budget(self, tier):
         return 170 if tier == 'quick' else 1200
 
     def units(self, tier):
+        from .. import corpus
         us = []
         for pid in PAIRS:
             for t in (TEXTS_Q if tier == 'quick' else TEXTS_T):
                 us.append({'pair': pid, 'files': [['main.conf', t]]})
+            # the C01 corpus: every balanced shape up to 3 (thorough 4) lines, all tokens symbolic
+            shapes = gen.shapes(3) if tier == 'quick' else gen.shapes(4)
+            for sh in shapes:
+                lines, _ = corpus.template(sh)
+                us.append({'pair': pid, 'shape': sh, 'files': [['main.conf', lines]]})
         return us
 
     def inputs(self, eng, unit):
